@@ -142,6 +142,10 @@ inline std::vector<Footer> footer_catalog(bool thorough) {
   add("<-03>3<-02>,M3.5.0/-2,M10.5.0/-1", "M,negtime");
   add("XXX-2<+03>-3,0/0,J365/25", "allyear");
   add("EST5EDT,0/0,J365/25", "allyear");
+  add("XXX-2<+01>-1,0/0,J365/23", "allyear,negative-saving");      // what zic writes for permanent negative-SAVE rules
+  add("<+01>-1<+00>0,0/0,J365/23", "allyear,negative-saving");
+  add("AAA-5:30BBB-7:30,0/0,J365/26", "allyear,2h-saving");
+  add("AAA3BBB2:40,0/0,J365/24:20", "allyear,20min-saving");
   add("<+1245>-12:45<+1345>,M9.5.0/2:45,M4.1.0/3:45", "M,south,45min");
   add("LHST-10:30LHDT-11,M10.1.0,M4.1.0", "M,south,halfhourdst");
   add("IST-2IDT,M3.4.4/26,M10.5.0", "M,26h");
